@@ -17,9 +17,12 @@ import GV.Proofs.FlatLabels
 import GV.Proofs.Segment
 import GV.Proofs.FlatTop
 import GV.Proofs.RunF
+import GV.Model.RetDefer
+import GV.Proofs.RetDefer
+import GV.Proofs.AndOr
 
 namespace GV.Props.C02
-open GV.Ctrl GV.Flat GV.Blocking
+open GV.Ctrl GV.Flat GV.Blocking GV.RetDefer
 
 /-! ### Blocking analysis -/
 
@@ -201,5 +204,167 @@ example : ∃ o, RunS witnessEnv (forgetVars (savedVars [] [0])) (fun _ _ _ => 1
   intro a s v hv
   have : v ≠ 0 := by simpa using hv
   simp [witnessEnv, this]
+
+/-! ### Deferred calls and the blocking `return` (layer `GV.Model.RetDefer`) -/
+
+/-- **return_resume** — a `return` reached while deferred calls suspend is re-executed after every resumption, but only
+    returns the value cached in `$24r` when it was first reached: for EVERY schedule of the deferred calls (each may
+    suspend any number of times) the function delivers exactly Go's result — unnamed results as they were when the
+    `return` statement executed, named results as the deferred calls left them, the store after all deferred calls ran
+    LIFO — and it is the only result the protocol can deliver. -/
+theorem return_resume (D : DEnv σ V) (forget : σ → σ) (sched : Nat → Nat → σ → Nat) (named : Bool)
+    (hD : ∀ d st, forget st = st → forget (D.dcall d st) = D.dcall d st)
+    (ds : List Nat) (st : σ) (hst : forget st = st) :
+    RunRet D forget sched (.cached (D.retv st)) named st (ds.map .fresh) 0 true (goReturn D named ds st) ∧
+    ∀ r, RunRet D forget sched (.cached (D.retv st)) named st (ds.map .fresh) 0 true r → r = goReturn D named ds st := by
+  have h := runRet_all D forget sched (.cached (D.retv st)) named (.inr (const_cached D _)) hD st
+    (ds.map .fresh) st 0 true hst
+  have heq : target D (.cached (D.retv st)) named st (runAll D (ds.map .fresh) st) = goReturn D named ds st := by
+    unfold target goReturn
+    rw [runAll_fresh]
+    rfl
+  rw [heq] at h
+  exact ⟨h, fun r hr => runRet_det D forget sched _ named hr h⟩
+
+/-- the scheme that re-evaluates the result expression on resumption (no `$24r`) -/
+def ReevalCorrect : Prop :=
+  ∀ (D : DEnv Nat Nat) (sched : Nat → Nat → Nat → Nat) (ds : List Nat) (st : Nat) (r : Nat × Nat),
+    RunRet D id sched .reeval false st (ds.map .fresh) 0 true r → r = goReturn D false ds st
+
+/-- **return_reeval_counterexample** — why the temporary is needed: with deferred call 0 (runs first) setting `x = 99`
+    and deferred call 1 suspending once, `return x` re-evaluated at `case n` yields 99; Go returns the old `x = 1`. -/
+theorem return_reeval_counterexample : ¬ ReevalCorrect := by
+  intro h
+  let D : DEnv Nat Nat := ⟨fun d st => if d = 0 then 99 else st, fun st => st⟩
+  let sched : Nat → Nat → Nat → Nat := fun _ d _ => if d = 1 then 1 else 0
+  have run : RunRet D id sched .reeval false 1 ([0, 1].map .fresh) 0 true (99, 99) := by
+    refine .suspend (st' := 99) (es' := [.susp 1 0]) (k' := 2) ?_ ?_
+    · exact .freshNow (by rfl) (.freshSusp (m := 0) (by rfl))
+    · exact .finish (st' := 99) (k' := 2) (.resumeNow .done)
+  have := h D sched [0, 1] 1 (99, 99) run
+  simp [goReturn, goDefers, D] at this
+
+/-- a recovered panic in a function with unnamed results: Go returns the zero value -/
+def PanicResumeCorrect : Prop :=
+  ∀ (D : DEnv Nat Nat) (sched : Nat → Nat → Nat → Nat) (ds : List Nat) (st : Nat) (z u : Nat) (r : Nat × Nat),
+    RunRet D id sched (.panicZero z u) false st (ds.map .fresh) 0 true r → r.1 = z
+
+/-- **panic_resume_counterexample** (known finding C02-panic-zero-result-lost-on-resume) — `catch { $s = -1; return 0 }`
+    is not re-executed on resumption: one deferred call that suspends once makes the function return `undefined`. -/
+theorem panic_resume_counterexample : ¬ PanicResumeCorrect := by
+  intro h
+  let D : DEnv Nat Nat := ⟨fun _ st => st, fun st => st⟩
+  have run : RunRet D id (fun _ _ _ => 1) (.panicZero 0 7) false 5 ([0].map .fresh) 0 true (7, 5) := by
+    refine .suspend (st' := 5) (es' := [.susp 0 0]) (k' := 1) (.freshSusp (m := 0) rfl) ?_
+    exact .finish (st' := 5) (k' := 1) (.resumeNow .done)
+  have := h D (fun _ _ _ => 1) [0] 5 0 7 (7, 5) run
+  simp at this
+
+theorem callDef_nosusp (D : DEnv σ V) (sched : Nat → Nat → σ → Nat) (h0 : ∀ k d st, sched k d st = 0) :
+    ∀ (ds : List Nat) (st : σ) (k : Nat),
+      CallDef D sched st (ds.map .fresh) k (goDefers D ds st, [], false, k + ds.length) := by
+  intro ds
+  induction ds with
+  | nil => intro st k; exact .done
+  | cons d ds ih =>
+    intro st k
+    have := ih (D.dcall d st) (k + 1)
+    simp only [List.map_cons, goDefers, List.length_cons]
+    rw [show k + (ds.length + 1) = k + 1 + ds.length by omega]
+    exact .freshNow (h0 k d st) this
+
+/-- **panic_resume_partial** — the recovered-panic path is right when no deferred call suspends, and for named results
+    under every schedule. -/
+theorem panic_resume_partial (D : DEnv σ V) (forget : σ → σ) (sched : Nat → Nat → σ → Nat) (z u : V) (ds : List Nat) (st : σ) :
+    ((∀ k d st, sched k d st = 0) →
+      RunRet D forget sched (.panicZero z u) false st (ds.map .fresh) 0 true (z, goDefers D ds st)) ∧
+    ((∀ d st, forget st = st → forget (D.dcall d st) = D.dcall d st) → forget st = st →
+      RunRet D forget sched (.panicZero z u) true st (ds.map .fresh) 0 true (goReturn D true ds st)) := by
+  constructor
+  · intro h0
+    have := RunRet.finish (forget := forget) (kind := RetKind.panicZero z u) (named := false) (first := true)
+      (callDef_nosusp D sched h0 ds st 0)
+    simpa [retNow] using this
+  · intro hD hst
+    have h := runRet_all D forget sched (.panicZero z u) true (.inl rfl) hD st (ds.map .fresh) st 0 true hst
+    have heq : target D (.panicZero z u) true st (runAll D (ds.map .fresh) st) = goReturn D true ds st := by
+      unfold target goReturn
+      rw [runAll_fresh]
+      rfl
+    rw [heq] at h
+    exact h
+
+/-- the hypothesis "no deferred call suspends" is satisfiable by a non-trivial run -/
+example : RunRet (⟨fun _ st => st + 1, fun st => st⟩ : DEnv Nat Nat) id (fun _ _ _ => 0) (.panicZero 0 7) false 5
+    ([3, 4].map .fresh) 0 true (0, 7) :=
+  (panic_resume_partial _ id _ 0 7 [3, 4] 5).1 (fun _ _ _ => rfl)
+
+/-- **flatten_correct_defer_partial** — a function with deferred calls: the flattened body runs to the `return` under every
+    schedule (`flatten_correct`), and from the store `st1` it reaches there the return protocol delivers Go's result under
+    every schedule of the deferred calls (`return_resume`).  `pending` reads the frame's `$deferred` stack (pushed by the
+    `defer` statements, which are ordinary actions of the body) when the `return` is reached.
+    PARTIAL in this precise sense: the two machines are composed at the `return`; that `switch ($s)` with `$s = n` re-enters
+    the body's code exactly at the return's own `case n:` is not derived from a combined code list (the resume label of a
+    blocking return is not part of `flatten`'s numbering), and panicking bodies are covered by `panic_resume_*` only. -/
+theorem flatten_correct_defer_partial (E : Env σ) (D : DEnv σ V) (pending : σ → List Nat) (forget : σ → σ)
+    (hE : EnvStable E forget) (hD : ∀ d st, forget st = st → forget (D.dcall d st) = D.dcall d st)
+    (sched schedD : Nat → Nat → σ → Nat) (named : Bool)
+    (body : Stmt) {st : σ} {g : Sig} {st1 : σ} (hev : Eval E body st g st1) (hg : g = .normal ∨ g = .ret)
+    (hst : forget st = st) :
+    RunS E forget sched (flatten body) (flatten body) st none false 0 st1 ∧
+    RunRet D forget schedD (.cached (D.retv st1)) named st1 ((pending st1).map .fresh) 0 true
+      (goReturn D named (pending st1) st1) :=
+  ⟨flatten_correct E forget hE sched body hev hg hst,
+   (return_resume D forget schedD named hD (pending st1) st1 (eval_stable hE hev hst)).1⟩
+
+/-! ### Expression-level flattening -/
+
+/-- **andor_flat** — the flattened `_v = a && b()` (and `a || b()`) with a blocking right operand, embedded anywhere in a
+    code list with distinct labels, under EVERY schedule: `a` (with its side effects) is evaluated exactly once — also
+    when `b()` suspends and the function is re-entered at `case N` — and `b()` is called iff `a` is true (false for
+    `||`); the machine continues after `case K:` in the store Go prescribes. -/
+theorem andor_flat (E : Env σ) (forget : σ → σ) (hE : EnvStable E forget) (sched : Nat → Nat → σ → Nat)
+    (code : List Instr) (hnd : (labels code).Nodup) (a b setC setV K N : Nat) (pr k : List Instr) (st o : σ)
+    (hst : forget st = st) (kk : Nat) :
+    (code = pr ++ (andCode a b setC setV K N ++ k) → Exec E code k (andSpec E a b setC setV st) o →
+      RunS E forget sched code (andCode a b setC setV K N ++ k) st none false kk o) ∧
+    (code = pr ++ (orCode a b setC setV K N ++ k) → Exec E code k (orSpec E a b setC setV st) o →
+      RunS E forget sched code (orCode a b setC setV K N ++ k) st none false kk o) :=
+  ⟨fun hc hk => segmentation E forget sched code hnd hE (and_exec E code hnd a b setC setV K N pr k hc st o hk) ⟨pr, hc⟩ hst kk,
+   fun hc hk => segmentation E forget sched code hnd hE (or_exec E code hnd a b setC setV K N pr k hc st o hk) ⟨pr, hc⟩ hst kk⟩
+
+/-- **args_order** — `f(x, g())` with a blocking later argument is emitted as `_arg = x; _r = g(); …resume…; f(_arg, _r)`
+    (utils.go:160-176): under every schedule the earlier argument is evaluated once, before `g()`, and its temporary
+    survives the suspensions of `g()` and `f()` (it is a saved local: `EnvStable`): the final store is
+    `f (g (evalArg st))`. -/
+theorem args_order (E : Env σ) (forget : σ → σ) (hE : EnvStable E forget) (sched : Nat → Nat → σ → Nat)
+    (evalArg g f : Nat) (st : σ) (hst : forget st = st) :
+    let body : Stmt := .seq (.act evalArg) (.seq (.call g) (.call f))
+    RunS E forget sched (flatten body) (flatten body) st none false 0 (E.call f (E.call g (E.act evalArg st))) :=
+  flatten_correct E forget hE sched _ (.seqN .act (.seqN .call .call)) (.inl rfl) hst
+
+/-- **retdefer_exec_sound** is not needed for the theorems; the driver's `runRetF` / `callDefF` mirror `RunRet` / `CallDef`
+    clause by clause. -/
+theorem callDefF_sound (D : DEnv σ V) (sched : Nat → Nat → σ → Nat) :
+    ∀ (fuel : Nat) (st : σ) (es : List DEntry) (k : Nat) (r : σ × List DEntry × Bool × Nat),
+      callDefF D sched fuel st es k = some r → CallDef D sched st es k r := by
+  intro fuel
+  induction fuel with
+  | zero => intro st es k r h; simp [callDefF] at h
+  | succ n ih =>
+    intro st es k r h
+    cases es with
+    | nil => simp only [callDefF, Option.some.injEq] at h; subst h; exact .done
+    | cons e es =>
+      cases e with
+      | fresh d =>
+        simp only [callDefF] at h
+        cases hs : sched k d st with
+        | zero => rw [hs] at h; exact .freshNow hs (ih _ _ _ _ h)
+        | succ m => rw [hs] at h; simp only [Option.some.injEq] at h; subst h; exact .freshSusp hs
+      | susp d m =>
+        cases m with
+        | zero => simp only [callDefF] at h; exact .resumeNow (ih _ _ _ _ h)
+        | succ m => simp only [callDefF, Option.some.injEq] at h; subst h; exact .resumeMore
 
 end GV.Props.C02
